@@ -55,6 +55,13 @@ Proof.
   intros g k s H1 H2 H3. apply need_spec_characterisation_gen; try assumption; vm_compute; congruence.
 Qed.
 
+(* "Under a named directory": UPDATE_CHECK_AFTER's label range (two generated comparison operators) is the
+   half-open range [path, upper) in byte order. *)
+Theorem C11_directory_range_is_half_open :
+  forall g f, in_tdir g f =
+    existsb (fun pu => lex_le (fst pu) (f_label f) && lex_lt (f_label f) (snd pu)) (g_tdirs g).
+Proof. exact in_tdir_repo. Qed.
+
 (* What counts as an output for target elevation. *)
 Theorem C11_regular_output_meaning :
   forall f, regular_output f = negb (f_detached f) && negb (f_state f =? FS_VOLATILE).
